@@ -165,6 +165,10 @@ def _rand_op(rng: Rng):
             op['ov_contracts'] = {rng.choice(sorted(IDS)): rng.choice(sorted(SATISFIES))}
         if rng.chance(1, 3):
             op['cache'] = True
+        if rng.chance(1, 3):
+            # the caller stamps the execution itself (the documented way to evaluate
+            # time locks at a chosen time)
+            op['cache_ts'] = rng.choice([0, 1, 1_700_000_000])
         if k == 'run' and rng.chance(1, 2):
             op['nest'] = rng.choice(NESTS)
         if k == 'frun':
@@ -663,6 +667,9 @@ def do_run(w, op, run):
     cache = {'sigfield1': FIELD}
     if op.get('cache'):
         cache.update({'sigfield2': b'two', b'mine': [b'a', b'b'], 'note': ['x', {'y': 1}]})
+    if op.get('cache_ts') is not None:
+        cache['timestamp'] = op['cache_ts']
+        run.probe('caller_cache_with_timestamp')
     if op['script'] == 'cachekey' and b'mine' not in cache:
         cache[b'mine'] = [b'q']
     eff_pl = {k: list(v) for k, v in m.plugins.items()}
@@ -886,7 +893,7 @@ def execute(plan, run):
 
 def shrink(plan):
     for i, s in enumerate(plan['steps']):
-        for key in ('fault', 'ov_plugins', 'ov_contracts', 'cache', 'nest'):
+        for key in ('fault', 'ov_plugins', 'ov_contracts', 'cache', 'cache_ts', 'nest'):
             if key in s:
                 c = copy.deepcopy(plan)
                 del c['steps'][i][key]
